@@ -454,6 +454,25 @@ impl<'g, 'r> ProgGen<'g, 'r> {
     }
 
     fn index_expr(&mut self, fc: &mut FnCtx, n: usize) -> Expr {
+        // a computed subscript (kept inside the array by a mask): the index goes through the accumulator
+        if n >= 2 && self.g.chance(1, 12) {
+            let c: Vec<(String, Ty)> = self
+                .visible_scalars(fc, Some(true), false)
+                .into_iter()
+                .filter(|(nm, t)| *t == Ty::U8 && !nm.starts_with('K') && nm != "X" && nm != "Y")
+                .collect();
+            if !c.is_empty() {
+                let (name, _) = self.g.pick(&c).clone();
+                fc.touched.insert(name.clone());
+                let p2 = if n.is_power_of_two() { n } else { n.next_power_of_two() / 2 };
+                return if p2 >= 4 && self.g.chance(1, 2) {
+                    // (v & (p2/2 - 1)) + 1 stays below p2
+                    Expr::bin(BinOp::Add, Expr::bin(BinOp::And, Expr::var(&name), Expr::lit(p2 as i32 / 2 - 1)), Expr::lit(1))
+                } else {
+                    Expr::bin(BinOp::And, Expr::var(&name), Expr::lit(p2 as i32 - 1))
+                };
+            }
+        }
         match self.g.weighted(&[5, 4, 4, 1]) {
             0 => Expr::lit(self.g.below(n) as i32),
             1 => {
@@ -1816,7 +1835,26 @@ impl<'g, 'r> ProgGen<'g, 'r> {
         let arrs = self.arrays(fc, Some(true), true);
         let px = fc.protected.contains("X");
         let py = fc.protected.contains("Y");
-        match self.g.below(if self.cfg.addr_low_byte { 41 } else { 38 }) {
+        let pick = self.g.below(if self.cfg.addr_low_byte { 44 } else { 41 });
+        // (38..40 need cfg.addr_low_byte; the numbering of the other patterns is kept)
+        let pick = if !self.cfg.addr_low_byte && pick >= 38 { pick + 3 } else { pick };
+        match pick {
+            41 | 42 | 43 => {
+                // the high byte of an element of a 16-bit array, reached with a constant index and with the
+                // same index in a register (the two bytes of an element are not neighbours in memory)
+                let wa: Vec<(String, Ty, usize)> = self.arrays(fc, Some(false), true);
+                if wa.is_empty() || px {
+                    return vec![self.assign_stmt(fc)];
+                }
+                let (ar, _, n) = self.g.pick(&wa).clone();
+                let kk = self.g.below(n) as i32;
+                let hi = |i: Expr| Expr::bin(BinOp::Shr, Expr::Lv(LValue::Index(ar.clone(), Box::new(i))), Expr::lit(8));
+                vec![
+                    Stmt::Expr(Expr::assign(LValue::Var(a.clone()), hi(Expr::lit(kk)))),
+                    Stmt::Expr(Expr::assign(LValue::Var("X".into()), Expr::lit(kk))),
+                    Stmt::Expr(Expr::assign(LValue::Var(b.clone()), hi(Expr::var("X")))),
+                ]
+            }
             38 | 39 | 40 => {
                 // the low byte of an array address (a constant that only the assembler knows) compared with
                 // a number: the optimizer cannot decide the comparison from the spelling of the two operands
